@@ -425,6 +425,7 @@ CHECK = Check(
         "bufferedAmount equals the bytes of the channel's queued user messages at every sample (never negative, 0 when "
         "drained), bufferedamountlow fires exactly on downward crossings, nothing raises. Non-trivial = a close directly "
         "after create, a non-ASCII label, an id reuse or a stop()."
+        " Families yielding-send / bundling as in C01; busy-close: no faults, more data accepted than the congestion window lets through, close() at once or shortly after, then the id is used again."
     ),
     families=[Family("programs", run_lifecycle, lifecycle_case, quick=4000, thorough=120000, min_shard=20),
               # the same programs over a transport whose send suspends (TURN channel bind / refresh)
